@@ -132,7 +132,7 @@ def h_defaults(h: int):
 
 
 BOUNDS = {
-    'quick': 'all strings (any Unicode code points) of length 0..7 x 5 constructor settings; helpers: all integers for the '
+    'quick': 'all strings (any Unicode code points) of length 0..8 x 5 constructor settings; helpers: all integers for the '
              'emitted text (direct SMT lemma over the AST terms, z3+cvc5), 13 boundary values (incl. negative, > 2^64) for recognition by the parser',
     'thorough': 'all strings of length 0..9 x 5 constructor settings; helpers as in quick',
 }
@@ -143,7 +143,7 @@ KINDS = 'C: input string (any characters, bounded length); E: constructor settin
 
 def obligations(tier):
     obs = [selftest_ob()]
-    maxn = 7 if tier == 'quick' else 9
+    maxn = 8 if tier == 'quick' else 9
     for n in range(0, maxn + 1):
         if n >= 5:
             for cfg in range(len(CONFIGS)):
